@@ -10,7 +10,7 @@ EXPLANATION = ("(1) gix_index::decode: Entry values are constructed only in entr
                "extension) the map `k-th read_u32 -> Stat field` is extracted from MIR and must be git's order ctime.secs, ctime.nsecs, mtime.secs, "
                "mtime.nsecs, dev, ino, [mode], uid, gid, size. (3) every non-V4 path through load_one passes skip_padding before the Entry is built (writer/reader pairing of the 8-byte entry padding); (4) no remainder-dropping or filtering adaptor "
                "(chunks_exact, windows, take, skip, step_by, filter, truncate, ...) is applied to the IEOT offset list, because the threaded path never re-counts "
-               "decoded entries. Equality of all decoded content with what git stored is not decided.")
+               "decoded entries. Every shift-by-7/mask-127 loop of gix-index and gix_features::decode adds 1 before shifting (git's offset var-int) and util::var_int is or delegates to one. Equality of all decoded content with what git stored is not decided.")
 
 
 def run(db, chk):
